@@ -383,3 +383,86 @@ package template
 //@   ensures okstays: old(t.escapeErr) == errEscapeOK ==> isnil(err) && t.escapeErr == errEscapeOK
 //@   ensures incomplete: isnil(old(t.escapeErr)) && isnil(old(t.Tree)) ==> !isnil(err)
 //@   ensures analysed: isnil(old(t.escapeErr)) && !isnil(old(t.Tree)) ==> ite(isnil(err), t.escapeErr == errEscapeOK, t.escapeErr == err && err != errEscapeOK && isnil(t.Tree) && isnil(t.text.Tree))
+
+//@ func (t *Template) Execute(wr io.Writer, data interface{}) (err error)
+//@   serves C05 C07 C08
+//@   requires !isnil(t) && !isnil(t.nameSpace) && !isnil(t.text) && !held(t.nameSpace.mu) && !isnil(t.nameSpace.set)
+//@   requires registered: t.nameSpace.set[ttname(t.text)] == t
+//@   requires treesync: isnil(t.escapeErr) ==> t.Tree == t.text.Tree
+//@   option modifies Template.escapeErr Template.Tree TT_Template.Tree nameSpace.escaped $written
+//@   option locks true
+//@   ensures frozen: t.nameSpace.escaped
+//@   ensures sticky: !isnil(old(t.escapeErr)) && old(t.escapeErr) != errEscapeOK ==> !isnil(err) && written() == old(written()) && t.escapeErr == old(t.escapeErr)
+//@   ensures incomplete: isnil(old(t.escapeErr)) && isnil(old(t.Tree)) ==> !isnil(err) && written() == old(written())
+//@   ensures analysisfailed: !isnil(t.escapeErr) && t.escapeErr != errEscapeOK ==> !isnil(err) && written() == old(written())
+//@   ensures unlocked: !held(t.nameSpace.mu)
+
+//@ func (t *Template) ExecuteToHTML(data interface{}) (r safehtml.HTML, err error)
+//@   serves C05 C08
+//@   requires !isnil(t) && !isnil(t.nameSpace) && !isnil(t.text) && !held(t.nameSpace.mu) && !isnil(t.nameSpace.set)
+//@   requires registered: t.nameSpace.set[ttname(t.text)] == t
+//@   requires treesync: isnil(t.escapeErr) ==> t.Tree == t.text.Tree
+//@   option modifies Template.escapeErr Template.Tree TT_Template.Tree nameSpace.escaped $written
+//@   option locks true
+//@   ensures zero: !isnil(err) ==> len(r.str) == 0
+//@   ensures sticky: !isnil(old(t.escapeErr)) && old(t.escapeErr) != errEscapeOK ==> !isnil(err)
+
+//@ func (t *Template) lookupAndEscapeTemplate(name string) (tmpl *Template, err error)
+//@   serves C05 C07 C08
+//@   option nopanic
+//@   requires !isnil(t) && !isnil(t.nameSpace) && !isnil(t.text) && !held(t.nameSpace.mu) && !isnil(t.nameSpace.set)
+//@   requires setwf: !isnil(t.nameSpace.set[name]) ==> !isnil(t.nameSpace.set[name].text) && t.nameSpace.set[name].nameSpace == t.nameSpace
+//@   requires insync: !isnil(t.nameSpace.set[name]) ==> !isnil(ttlookup(t.text, name))
+//@   option modifies Template.escapeErr Template.Tree TT_Template.Tree nameSpace.escaped
+//@   option locks true
+//@   ensures frozen: t.nameSpace.escaped
+//@   ensures unlocked: !held(t.nameSpace.mu)
+//@   ensures undefined: isnil(old(t.nameSpace.set[name])) ==> !isnil(err) && isnil(tmpl)
+//@   ensures sticky: !isnil(old(t.nameSpace.set[name])) && !isnil(old(t.nameSpace.set[name].escapeErr)) && old(t.nameSpace.set[name].escapeErr) != errEscapeOK ==> !isnil(err) && isnil(tmpl)
+//@   ensures okresult: isnil(err) ==> !isnil(tmpl) && tmpl == t.nameSpace.set[name] && tmpl.escapeErr == errEscapeOK && !isnil(tmpl.text)
+
+//@ func (t *Template) ExecuteTemplate(wr io.Writer, name string, data interface{}) (err error)
+//@   serves C05 C07 C08
+//@   requires !isnil(t) && !isnil(t.nameSpace) && !isnil(t.text) && !held(t.nameSpace.mu) && !isnil(t.nameSpace.set)
+//@   requires setwf: !isnil(t.nameSpace.set[name]) ==> !isnil(t.nameSpace.set[name].text) && t.nameSpace.set[name].nameSpace == t.nameSpace
+//@   requires insync: !isnil(t.nameSpace.set[name]) ==> !isnil(ttlookup(t.text, name))
+//@   option modifies Template.escapeErr Template.Tree TT_Template.Tree nameSpace.escaped $written
+//@   option locks true
+//@   ensures undefined: isnil(old(t.nameSpace.set[name])) ==> !isnil(err) && written() == old(written())
+//@   ensures sticky: !isnil(old(t.nameSpace.set[name])) && !isnil(old(t.nameSpace.set[name].escapeErr)) && old(t.nameSpace.set[name].escapeErr) != errEscapeOK ==> !isnil(err) && written() == old(written())
+
+//@ func (t *Template) ExecuteTemplateToHTML(name string, data interface{}) (r safehtml.HTML, err error)
+//@   serves C05 C08
+//@   requires !isnil(t) && !isnil(t.nameSpace) && !isnil(t.text) && !held(t.nameSpace.mu) && !isnil(t.nameSpace.set)
+//@   requires setwf: !isnil(t.nameSpace.set[name]) ==> !isnil(t.nameSpace.set[name].text) && t.nameSpace.set[name].nameSpace == t.nameSpace
+//@   requires insync: !isnil(t.nameSpace.set[name]) ==> !isnil(ttlookup(t.text, name))
+//@   option modifies Template.escapeErr Template.Tree TT_Template.Tree nameSpace.escaped $written
+//@   option locks true
+//@   ensures zero: !isnil(err) ==> len(r.str) == 0
+
+//@ func parseFiles(t *Template, readFile func(string) (string, []byte, error), filenames ...string) (r *Template, err error)
+//@   serves C07
+//@   requires !isnil(t) ==> !isnil(t.nameSpace) && !held(t.nameSpace.mu)
+//@   option locks true
+//@   option stopafter 1
+//@   option modifies Template.escapeErr Template.Tree Template.text TT_Template.Tree nameSpace.escaped nameSpace.set map[seq]ref:Template#dom map[seq]ref:Template#val
+//@   step 1: isnil(t) || !t.nameSpace.escaped
+//@   ensures frozen: !isnil(t) && old(t.nameSpace.escaped) ==> !isnil(err) && isnil(r) && nochange()
+
+//@ func parseGlob(t *Template, pattern string) (r *Template, err error)
+//@   serves C07
+//@   requires !isnil(t) ==> !isnil(t.nameSpace) && !held(t.nameSpace.mu)
+//@   option locks true
+//@   option stopafter 1
+//@   option modifies Template.escapeErr Template.Tree Template.text TT_Template.Tree nameSpace.escaped nameSpace.set map[seq]ref:Template#dom map[seq]ref:Template#val
+//@   step 1: isnil(t) || !t.nameSpace.escaped
+//@   ensures frozen: !isnil(t) && old(t.nameSpace.escaped) ==> !isnil(err) && isnil(r) && nochange()
+
+//@ func (t *Template) Parse(text stringConstant) (r *Template, err error)
+//@   serves C07
+//@   requires !isnil(t) && !isnil(t.nameSpace) && !held(t.nameSpace.mu)
+//@   option locks true
+//@   option stopafter 1
+//@   option modifies Template.escapeErr Template.Tree Template.text TT_Template.Tree nameSpace.escaped nameSpace.set map[seq]ref:Template#dom map[seq]ref:Template#val
+//@   step 1: !t.nameSpace.escaped
+//@   ensures frozen: old(t.nameSpace.escaped) ==> !isnil(err) && isnil(r) && nochange()
